@@ -454,3 +454,7 @@ mod bench {
         });
     }
 }
+
+#[cfg(kani)]
+#[path = "/verif/harness/may_queue/spsc.rs"]
+mod verif_kani;
